@@ -97,6 +97,8 @@ def v1_config(cfg):
         yml += "enable_rails_exceptions: true\n"
     if cfg.get("multi_step"):
         yml += "enable_multi_step_generation: true\n"
+    if cfg.get("pass"):
+        yml += "passthrough: true\n"
     if cfg["nin"] or cfg["nout"] or cfg.get("single_call") or cfg.get("nret"):
         yml += "rails:\n"
         if cfg["nin"]:
@@ -223,6 +225,9 @@ class Scenario:
             self.cur_turn = t
             del self.shared[:]
             del self.llm.calls[:]
+            if turn.get("cold"):
+                # the request reaches an instance that has no cached events for this conversation
+                self.app.events_history_cache.clear()
             text = user_text(t, 0, turn["kind"])
             messages = messages + [{"role": "user", "content": text}]
             opts = {"log": {"internal_events": True, "activated_rails": True}}
